@@ -137,21 +137,23 @@ def checkFin (sc : Sc) (fin : List (String × String)) (leakNames : String) : Li
     if (getN m "pr" == 2) != il then out := out ++ [s!"[C04,C17] side {side} forward-TSN variant {getN m "pr"} does not match interleaving={il}"]
     if getB m "zcsend" && !peerZc then out := out ++ [s!"[C04,C13] side {side} sends zero checksums although the peer did not declare them acceptable"]
     if getB m "zcrecv" != ownZc then out := out ++ [s!"[C04,C13] side {side} zero-checksum receive flag {getB m "zcrecv"} differs from its own option {ownZc}"]
-  -- delivery histories
+  -- delivery histories (in partial-reliability scenarios a lost or misdelivered message on ANY stream is also a C07 violation:
+  -- abandoned messages must not block or destroy anything else)
+  let x07 := if sc.mode == "pr" then "C07," else ""
   for st in sc.streams do
     let ws := msgsOf sc st.dir st.id
     let rs := readsOf sc (1 - st.dir) st.id
     let reliable := st.relType == 0
     if reliable && !st.unordered then
       if !isPrefixOf rs ws then
-        out := out ++ [s!"[C01] ordered reliable stream {st.id}: reads are not a prefix of the accepted writes ({describeDiff rs ws})"]
+        out := out ++ [s!"[{x07}C01] ordered reliable stream {st.id}: reads are not a prefix of the accepted writes ({describeDiff rs ws})"]
       else if sc.ended && rs.length != ws.length then
-        out := out ++ [s!"[C02,C01] ordered reliable stream {st.id}: {rs.length} of {ws.length} messages delivered after the network healed"]
+        out := out ++ [s!"[{x07}C02,C01] ordered reliable stream {st.id}: {rs.length} of {ws.length} messages delivered after the network healed"]
     else if reliable then
       if !isSubMultiset rs ws then
-        out := out ++ [s!"[C06] unordered reliable stream {st.id}: a read does not match a distinct written message ({describeDiff rs ws})"]
+        out := out ++ [s!"[{x07}C06] unordered reliable stream {st.id}: a read does not match a distinct written message ({describeDiff rs ws})"]
       else if sc.ended && rs.length != ws.length then
-        out := out ++ [s!"[C02,C06] unordered reliable stream {st.id}: {rs.length} of {ws.length} messages delivered after the network healed"]
+        out := out ++ [s!"[{x07}C02,C06] unordered reliable stream {st.id}: {rs.length} of {ws.length} messages delivered after the network healed"]
     else if !st.unordered then
       if !isSubsequenceOf rs ws then
         out := out ++ [s!"[C06,C07] ordered partially reliable stream {st.id}: reads are not a subsequence of the writes ({describeDiff rs ws})"]
